@@ -108,7 +108,7 @@ impl Property for C10 {
         ]
     }
     fn expected_probes(&self) -> Vec<&'static str> {
-        vec!["success", "flag_mismatch", "parity_error", "short_block", "long_block", "verify_ok", "verify_mismatch", "past_end", "de_zero", "d_is_ff", "ix_wraps", "ix_in_rom", "block_crosses_128", "empty_block", "paging_locked_then_ignored_write", "rewind_between_requests", "rewind_after_end_of_tape"]
+        vec!["success", "flag_mismatch", "parity_error", "short_block", "long_block", "verify_ok", "verify_mismatch", "past_end", "de_zero", "d_is_ff", "ix_wraps", "ix_in_rom", "block_crosses_128", "empty_block", "paging_locked_then_ignored_write", "rewind_between_requests", "rewind_after_end_of_tape", "play_stop_between_requests"]
     }
 
     fn gen(&self, rng: &mut Rng, _tier: Tier, _idx: u64) -> Scenario {
@@ -133,6 +133,9 @@ impl Property for C10 {
             if rewinds && rng.chance(1, 3) {
                 sc.op("rw", &[]);
                 cursor = 0;
+            }
+            if rewinds && rng.chance(1, 4) {
+                sc.op("ps", &[]);
             }
             let blk = blocks.get(cursor);
             cursor += 1;
@@ -215,6 +218,14 @@ impl Property for C10 {
                     }
                     e.verif_bus().write_io(0x7FFD, if unlocked { v | 0x10 } else { v });
                 }
+                continue;
+            }
+            if op.k == "ps" {
+                // the host presses PLAY and STOP again without any emulated time in between: the deck stands
+                // where it stood, the next request is served by the fast loader as before
+                ctx.probe("play_stop_between_requests");
+                e.play_tape();
+                e.stop_tape();
                 continue;
             }
             if op.k == "rw" {
